@@ -57,20 +57,21 @@ type Resource struct {
 // RespPlan scripts one answer of the origin. The i-th request for a resource
 // (any method) consumes Plans[i % len(Plans)].
 type RespPlan struct {
-	Status   int         `json:"status"`
-	CC       string      `json:"cc,omitempty"`
-	CCStyle  string      `json:"cc_style,omitempty"`  // "" | "lines" (one field line per directive) | "case" (directive names in mixed case)
-	DateMode string      `json:"date,omitempty"`      // "" = now | "skew" | "absent" | "invalid"
-	DateSkew int64       `json:"date_skew,omitempty"` // seconds added to now
-	Age      string      `json:"age,omitempty"`       // literal Age value ("" absent); "dup:a,b" = two field lines
-	ExpMode  string      `json:"exp,omitempty"`       // "" absent | "rel" (Date+ExpDelta) | "zero" | "invalid"
-	ExpDelta int64       `json:"exp_delta,omitempty"`
-	LMMode   string      `json:"lm,omitempty"`   // "" absent | "rel" (the version's modification time) | "invalid"
-	ETag     string      `json:"etag,omitempty"` // "" absent | "strong" | "weak"
-	Vary     string      `json:"vary,omitempty"`
-	Extra    [][2]string `json:"extra,omitempty"` // further end-to-end fields (may repeat names)
-	Hop      [][2]string `json:"hop,omitempty"`   // hop-by-hop fields incl. Connection
-	Trailer  [][2]string `json:"trailer,omitempty"`
+	Status    int         `json:"status"`
+	CC        string      `json:"cc,omitempty"`
+	CCStyle   string      `json:"cc_style,omitempty"`  // "" | "lines" (one field line per directive) | "case" (directive names in mixed case)
+	DateMode  string      `json:"date,omitempty"`      // "" = now | "skew" | "absent" | "invalid"
+	DateSkew  int64       `json:"date_skew,omitempty"` // seconds added to now
+	Age       string      `json:"age,omitempty"`       // literal Age value ("" absent); "dup:a,b" = two field lines
+	ExpMode   string      `json:"exp,omitempty"`       // "" absent | "rel" (Date+ExpDelta) | "zero" | "invalid"
+	ExpDelta  int64       `json:"exp_delta,omitempty"`
+	LMMode    string      `json:"lm,omitempty"`   // "" absent | "rel" (the version's modification time) | "invalid"
+	ETag      string      `json:"etag,omitempty"` // "" absent | "strong" | "weak"
+	Vary      string      `json:"vary,omitempty"`
+	VaryLines bool        `json:"vary_lines,omitempty"` // send Vary as one field line per member
+	Extra     [][2]string `json:"extra,omitempty"`      // further end-to-end fields (may repeat names)
+	Hop       [][2]string `json:"hop,omitempty"`        // hop-by-hop fields incl. Connection
+	Trailer   [][2]string `json:"trailer,omitempty"`
 
 	BodyLen   int    `json:"body_len"`
 	BodyClass int    `json:"body_class,omitempty"` // 0 ascii, 1 binary, 2 http-like text
@@ -82,10 +83,11 @@ type RespPlan struct {
 	Fault      string `json:"fault,omitempty"`        // "" | "err" | "hang" | "reset" (at wire byte FaultAt) | "eof" (at wire byte FaultAt)
 	FaultAt    int    `json:"fault_at,omitempty"`
 
-	Change  bool   `json:"change,omitempty"` // representation changes before this answer
-	No304   bool   `json:"no304,omitempty"`  // answer validators with a full response anyway
-	Loc     string `json:"loc,omitempty"`    // Location: "" | "rel" | "abs" (same origin) | "cross"
-	CLoc    string `json:"cloc,omitempty"`   // Content-Location, same alphabet
+	Change  bool   `json:"change,omitempty"`   // representation changes before this answer
+	No304   bool   `json:"no304,omitempty"`    // answer validators with a full response anyway
+	Bare304 bool   `json:"bare_304,omitempty"` // a 304 from this plan carries only Date and the validators (no provenance marker, nothing to update)
+	Loc     string `json:"loc,omitempty"`      // Location: "" | "rel" | "abs" (same origin) | "cross"
+	CLoc    string `json:"cloc,omitempty"`     // Content-Location, same alphabet
 	LocRes  int    `json:"loc_res,omitempty"`
 	CLocRes int    `json:"cloc_res,omitempty"`
 }
